@@ -98,7 +98,13 @@ def run_graph_case(prop, case, note, skip, recipe_plan, oracle,
       if subkey in skip:
         continue
       note(subkey)
-      out = pipeline.quantize(built.model, recipe, [data], built.keys[0])
+      multi = None
+      if len(built.ops) > 1:
+        multi = [(built.keys[0], [data])] + [
+            (built.keys[si], [built.input_data(si, dk)])
+            for si in range(1, len(built.ops))]
+      out = pipeline.quantize(built.model, recipe, [data], built.keys[0],
+                              multi=multi)
       res['evals'] += 1
       res['transitions'] += 1
       ctx = Ctx(prop, case, built, subkey, recipe, dk, data, fout, ftens, out)
